@@ -12,12 +12,12 @@ RULE = (
     "seeded call histories: 2-6 concurrently pending actor tasks each run a script of {call f.asynq(...) in one of "
     "several spellings (positional / keyword / defaults / keyword-only), await one or several earlier calls (same yield "
     "or later), let a flush pass, dirty(key)} against deduplicated plain functions, methods on two instances and a "
-    "static method, over 2-3 keys (in 40% of the histories different keys with EQUAL hashes: -1/-2, 0/2**61-1); bodies block on one or two batch flushes, succeed or raise, and optionally re-enter "
+    "static method, two same-named functions made by one factory (equal module and __qualname__, different objects) and methods of two same-named classes whose instances compare equal, over 2-3 keys (in 40% of the histories different keys with EQUAL hashes: -1/-2, 0/2**61-1); bodies block on one or two batch flushes, succeed or raise, and optionally re-enter "
     "their own key synchronously. Several get_priority() policies, both builds. Model: key -> in-flight task (created, "
     "not complete, not dirtied), maintained from the returned objects and their on_computed events. Oracles: a call from "
     "outside the running body returns the model's task (identity) or, if none, a task that is not already computed and "
     "was never handed out for another key; body executions per created-and-awaited task = 1 (keyed by "
-    "get_active_task()); all awaiters of one task receive the identical value / exception object. "
+    "get_active_task()); all awaiters of one task receive the identical value / exception object; every call - also one issued from inside the running body, in a seeded spelling - is answered with the body's outcome for the requested function and arguments. "
     "distinct = script hash; non-trivial = some call arrived while the first was in flight and blocked."
 )
 ASSUMPTIONS = [
@@ -49,6 +49,7 @@ class World(object):
         self.dirtied = set()
         self.item_ctr = itertools.count()
         self.created = []  # tasks the model considers freshly created
+        self.answers_checked = 0
 
 
 def body(fn, key):
@@ -116,18 +117,57 @@ def fns():
 
     @A()
     def helper(fn, key):
-        v = yield do_call(fn, key, 0)
+        # a request for the body's own key, issued from inside the running body in a seeded spelling
+        sp = W.cfg.get(repr((fn, key)), {}).get("reenter_spelling", 0)
+        v = yield do_call(fn, key, sp)
+        check_answer(W, fn, key, ("val", v), "re-entrant")
         return v
 
-    _fns.update(f=f, g=g, K=K, o1=K("o1"), o2=K("o2"), helper=helper)
+    def make_twin(tag):
+        # different function objects with the same module, name and qualified name
+        @deduplicate()
+        @A()
+        def twin(a, b=0, *, c=1):
+            return (yield from body(tag, (a, b, c)))
+
+        return twin
+
+    def make_cls(tag):
+        # ... and the same for a class body evaluated twice
+        class P(object):
+            @deduplicate()
+            @A()
+            def m(self, a, b=0, *, c=1):
+                return (yield from body(tag, (a, b, c)))
+
+            def __eq__(self, other):
+                return isinstance(other, P) or type(other).__name__ == "P"
+
+            def __hash__(self):
+                return 7
+
+        return P
+
+    _fns.update(f=f, g=g, K=K, o1=K("o1"), o2=K("o2"), helper=helper, t1=make_twin("t1"), t2=make_twin("t2"), p1=make_cls("p:1")(), p2=make_cls("p:2")())
     return _fns
 
 
 def reenter_helper(fn, key):
     try:
         fns()["helper"](fn, key)
-    except UserErr:
-        pass
+    except UserErr as e:
+        check_answer(W, fn, key, ("exc", e), "re-entrant")
+
+
+def check_answer(w, fn, key, got, where):
+    """Whatever task a call was given, its outcome is the body's outcome for the REQUESTED function and arguments."""
+    w.answers_checked += 1
+    payload = got[1].args[0] if got[0] == "exc" and got[1].args else got[1]
+    ok = isinstance(payload, tuple) and len(payload) == 4 and payload[0] == ("dedup" if got[0] == "exc" else "res") and payload[1] == fn and payload[2] == key
+    if ok and any(type(x) is not type(y) for x, y in zip(payload[2], key)):
+        ok = False
+    if not ok:
+        w.viol.append(("call-answered-for-other-function-or-arguments", {"requested": (fn, key), "where": where, "received": repr(got)[:160]}))
 
 
 def target(fn):
@@ -142,6 +182,12 @@ def target(fn):
         return F["o2"].m
     if fn == "s":
         return F["K"].s if True else None
+    if fn in ("t1", "t2"):
+        return F[fn]
+    if fn == "p:1":
+        return F["p1"].m
+    if fn == "p:2":
+        return F["p2"].m
     raise AssertionError(fn)
 
 
@@ -240,7 +286,9 @@ def do_dirty(fn, key, spelling):
 
 
 def make_script(rnd):
-    fnames = rnd.sample(["f", "g", "m:o1", "m:o2", "s"], rnd.randint(1, 3))
+    fnames = rnd.sample(["f", "g", "m:o1", "m:o2", "s", "t1", "t2", "p:1", "p:2"], rnd.randint(1, 3))
+    if rnd.random() < 0.25:
+        fnames = rnd.choice([["t1", "t2"], ["p:1", "p:2"], ["t1", "t2", "f"]])
     pool = [(1, 0, 1), (1, 2, 1), (2, 0, 1), (1, 0, 5), (3, 4, 5)]
     if rnd.random() < 0.4:
         # different keys whose hashes are EQUAL (hash(-1) == hash(-2), hash(0) == hash(2**61 - 1))
@@ -249,7 +297,7 @@ def make_script(rnd):
     cfg = {}
     for fn in fnames:
         for k in keys:
-            cfg[repr((fn, k))] = {"blocks": rnd.choice([1, 1, 2, 3]), "fail": rnd.random() < 0.25, "reenter": rnd.random() < 0.2}
+            cfg[repr((fn, k))] = {"blocks": rnd.choice([1, 1, 2, 3]), "fail": rnd.random() < 0.25, "reenter": rnd.random() < 0.2, "reenter_spelling": rnd.randrange(6)}
     actors = []
     for a in range(rnd.randint(2, 6)):
         script = []
@@ -289,21 +337,25 @@ def run_script(sc, prio, seed):
     @A()
     def actor(script):
         calls = []
+        what = []
         for st in script:
             if st[0] == "call":
                 calls.append(do_call(st[1], tuple(st[2]), st[3]))
+                what.append((st[1], tuple(st[2])))
             elif st[0] == "dirty":
                 do_dirty(st[1], tuple(st[2]), st[3])
             elif st[0] == "wait":
                 yield harness.HItem(rt, 1, "w%d" % next(w.item_ctr), ("wait", next(w.item_ctr)))
             elif st[0] == "await":
                 ts = [calls[i] for i in st[1]]
-                for t in ts:
+                for i, t in zip(st[1], ts):
                     try:
                         v = yield t
                         received.setdefault(id(t), []).append(("val", v))
+                        check_answer(w, what[i][0], what[i][1], ("val", v), "actor")
                     except UserErr as e:
                         received.setdefault(id(t), []).append(("exc", e))
+                        check_answer(w, what[i][0], what[i][1], ("exc", e), "actor")
                 # and once more, all together in one yield
                 try:
                     yield ts
@@ -376,6 +428,7 @@ def run_unit(unit, progress):
             inc("calls_from_inside_running_body_unconstrained", w.calls_unconstrained)
             inc("reruns_after_completion", w.after_completion)
             inc("reruns_after_dirty", w.after_dirty)
+            inc("answers_checked_against_requested_arguments", w.answers_checked)
             blocked += w.calls_inflight_blocked
             if viol and not bad:
                 bad = True
